@@ -1,8 +1,9 @@
 (* C04 — measures do not depend on node numbering. *)
 From Coq Require Import QArith Qcanon List Bool Arith Permutation.
 From PV.Base Require Import Sums.
-From PV.Model Require Import NsiLang Split Measures PairLoop.
-From PV.Proofs Require Import NsiLang Split Measures PairLoop.
+From PV.Model Require Import NsiLang Split Measures PairLoop MatAlg.
+From PV.Proofs Require Import NsiLang Split Measures PairLoop MatAlgGen.
+From PV.Gen Require Import NsiTerms.
 Import ListNotations.
 
 (* -- renumbering (sp_A[idx][:, idx], node_weights[idx], attributes and groups
@@ -48,3 +49,33 @@ Theorem C04_pair_loop_rev f l :
   (forall a b, f a b = f b a) -> pair_loop f (rev l) = pair_loop f l.
 Proof. exact (pair_loop_rev f l). Qed.
 Print Assumptions C04_pair_loop_rev.
+
+(* ---- the tie to the source: the expressions core/network.py computes for
+        its algebraic n.s.i. measures (regenerated on every run,
+        Gen/NsiTerms.v) are permuted with the nodes ---- *)
+Theorem C04_source_relabel_invariant tw a r p ve :
+  In ve (source_plain tw a ++ source_motif tw a) ->
+  Permutation p (seq 0 (rn r)) -> (forall u, rw r u <> Q2Qc 0) ->
+  forall i, (i < rn r)%nat ->
+  vden (to_graph (permute r p)) (fst ve) i = vden (to_graph r) (fst ve) (nth i p 0%nat).
+Proof. exact (source_relabel_invariant tw a r p ve). Qed.
+Print Assumptions C04_source_relabel_invariant.
+
+Theorem C04_source_invariant P l : all_denote P l ->
+  forall ve, In ve l -> forall G' G phi, pullback G' G phi ->
+  forall i, (i < gn G')%nat -> P G' i -> P G (phi i) ->
+  vden G' (fst ve) i = vden G (fst ve) (phi i).
+Proof. exact (source_invariant P l). Qed.
+Print Assumptions C04_source_invariant.
+
+Theorem C04_source_pair_global_invariant r p : Permutation p (seq 0 (rn r)) ->
+  sden (to_graph (permute r p)) gen_nsi_transitivity = sden (to_graph r) gen_nsi_transitivity /\
+  forall i j, (i < rn r)%nat -> (j < rn r)%nat ->
+    mden (to_graph (permute r p)) gen_nsi_twinness i j =
+    mden (to_graph r) gen_nsi_twinness (nth i p 0%nat) (nth j p 0%nat).
+Proof.
+  intros Hp. pose proof (permute_is_pullback r p Hp) as PB. split.
+  - exact (source_transitivity_invariant _ _ _ PB).
+  - exact (source_twinness_invariant _ _ _ PB).
+Qed.
+Print Assumptions C04_source_pair_global_invariant.
